@@ -334,6 +334,49 @@ def concat(tree):
     return _Concat().visit(tree)
 
 
+def import_style(tree):
+    """`import numpy as np` -> `import numpy as xnp`; `os.path.f(...)` -> `f(...)` with `from os.path import f`;
+    `multiprocessing.Pool` -> `Pool` with `from multiprocessing import Pool` (names that collide with anything else in
+    the module are left alone)"""
+    used = {x.id for x in ast.walk(tree) if isinstance(x, ast.Name)} | \
+        {a.arg for x in ast.walk(tree) if isinstance(x, ast.arguments) for a in x.args + x.kwonlyargs} | \
+        {x.name for x in ast.walk(tree) if isinstance(x, (ast.FunctionDef, ast.ClassDef))}
+    has_np = any(isinstance(st, ast.Import) and any(a.name == "numpy" and a.asname == "np" for a in st.names) for st in tree.body)
+    ospath, mp = set(), set()
+
+    class T(ast.NodeTransformer):
+        def visit_Attribute(self, n):
+            self.generic_visit(n)
+            if isinstance(n.ctx, ast.Load) and isinstance(n.value, ast.Attribute) and isinstance(n.value.value, ast.Name) and \
+                    n.value.value.id == "os" and n.value.attr == "path" and n.attr not in used:
+                ospath.add(n.attr)
+                return ast.copy_location(ast.Name(id=n.attr, ctx=ast.Load()), n)
+            if isinstance(n.ctx, ast.Load) and isinstance(n.value, ast.Name) and n.value.id == "multiprocessing" and \
+                    n.attr == "Pool" and "Pool" not in used:
+                mp.add("Pool")
+                return ast.copy_location(ast.Name(id="Pool", ctx=ast.Load()), n)
+            return n
+
+        def visit_Name(self, n):
+            if has_np and n.id == "np" and "xnp" not in used:
+                n.id = "xnp"
+            return n
+    for st in tree.body:
+        if not isinstance(st, (ast.Import, ast.ImportFrom)):
+            T().visit(st)
+    for st in tree.body:
+        if isinstance(st, ast.Import) and has_np and "xnp" not in used:
+            for a in st.names:
+                if a.name == "numpy" and a.asname == "np":
+                    a.asname = "xnp"
+    k = 1 if tree.body and isinstance(tree.body[0], ast.Expr) and isinstance(tree.body[0].value, ast.Constant) else 0
+    if ospath:
+        tree.body.insert(k, ast.ImportFrom(module="os.path", names=[ast.alias(name=f) for f in sorted(ospath)], level=0))
+    if mp:
+        tree.body.insert(k, ast.ImportFrom(module="multiprocessing", names=[ast.alias(name="Pool")], level=0))
+    return tree
+
+
 def formats(tree):
     return _Formats().visit(tree)
 
@@ -366,6 +409,8 @@ def build(kind, dst):
                 tree = formats(tree)
             elif kind == "concat":
                 tree = concat(tree)
+            elif kind == "imports":
+                tree = import_style(tree)
             ast.fix_missing_locations(tree)
             src = ast.unparse(tree)
             compile(src, p, "exec")
@@ -402,6 +447,6 @@ if __name__ == "__main__":
     if "-k" in sys.argv:
         props = [sys.argv[sys.argv.index("-k") + 1]]
         args = [a for a in args if a not in props]
-    kinds = args or ["unparse", "logging", "rename", "extractvar", "swap", "flattenelse", "inlinevar", "synonyms", "guards", "formats", "concat"]
+    kinds = args or ["unparse", "logging", "rename", "extractvar", "swap", "flattenelse", "inlinevar", "synonyms", "guards", "formats", "concat", "imports"]
     tot = sum(run(k, props) for k in kinds)
     sys.exit(1 if tot else 0)
